@@ -260,15 +260,16 @@ def run_shard(shard):
                         res.evaluations += 1
                         res.states += 1
                         res.transitions += 1
-                        try:
-                            r, g = flox.groupby_reduce(da.from_array(arr, chunks=grid), da.from_array(by, chunks=grid[3 - nd:]), func=func, axis=axis, fill_value=-1)
-                            got, labs = dask.compute(r, g, scheduler="sync")
-                        except e1.REFUSALS as e:
-                            res.outcomes[f"refused:{type(e).__name__}"] += 1
+                        o = e1.call_reduce(da.from_array(arr, chunks=grid), da.from_array(by, chunks=grid[3 - nd:]), func=func, axis=axis, fill_value=-1)
+                        if o.kind != "ok":
+                            res.outcomes[f"{o.kind}:{o.exc}@{o.where}/{o.origin}"] += 1
+                            if o.where == "compute" and o.origin != "flox":
+                                # the graph was built without complaint and then fails inside numpy/dask: the labels found at
+                                # compute time cannot be assembled
+                                res.violate("compute-time-labels", case, o.brief(), "the eager mapping, or a refusal when the graph is built",
+                                            tags=dict(tags, kind="compute-failure", exc=o.exc), size=20)
                             continue
-                        except Exception as e:
-                            res.outcomes[f"error:{type(e).__name__}"] += 1
-                            continue
+                        got, labs = o.result, o.groups[0]
                         eg = e1.call_reduce(arr, by, func=func, axis=axis, fill_value=-1)
                         res.compared += 1
                         res.nontrivial += 1
